@@ -155,9 +155,7 @@ def execute(prop, scen):
     from sklearn.base import clone
     res = RunResult()
     peers.reset()
-    from sktime.forecasting.base import ForecastingHorizon
-    ForecastingHorizon.to_relative.cache_clear()
-    ForecastingHorizon.to_absolute.cache_clear()
+    C.reset_caches()
     spec = scen["spec"]
     kind = spec["kind"]
     base = _base(spec)
